@@ -587,6 +587,10 @@ func Names(fd protoreflect.FieldDescriptor) []string {
 	if n := fd.TextName(); n != out[0] {
 		out = append(out, n)
 	}
+	// group-like fields: the lower-case field name is accepted next to the type name
+	if n := string(fd.Name()); n != out[0] && n != out[len(out)-1] {
+		out = append(out, n)
+	}
 	return out
 }
 
@@ -597,7 +601,7 @@ func (g *Gen) name(fd protoreflect.FieldDescriptor) (string, string) {
 	if fd.IsExtension() {
 		kind = "ext"
 		g.label("ext")
-	} else if i == 1 {
+	} else if i >= 1 {
 		kind = "proto"
 		g.label("proto-name")
 	}
@@ -662,7 +666,7 @@ func (g *Gen) plain(md protoreflect.MessageDescriptor, depth, level int, via str
 		}
 	}
 	if g.InjectAt >= 0 && g.Injected == nil {
-		if g.seenMsg >= g.InjectAt {
+		if g.seenMsg >= g.InjectAt || level == 1 { // the top-level node comes last: fallback
 			g.inject(md, node, cands, chosen, oneofs, depth, level, via)
 		}
 		g.seenMsg++
@@ -705,17 +709,14 @@ func (g *Gen) inject(md protoreflect.MessageDescriptor, node *Node, cands []prot
 			}
 		}
 	}
-	if g.InjectOneof {
+	var ods []protoreflect.OneofDescriptor
+	for i := 0; i < md.Oneofs().Len(); i++ {
+		if od := md.Oneofs().Get(i); !od.IsSynthetic() && od.Fields().Len() >= 2 {
+			ods = append(ods, od)
+		}
+	}
+	if g.InjectOneof && len(ods) > 0 {
 		// pick a oneof with >= 2 members; ensure one non-null member exists, then add another
-		var ods []protoreflect.OneofDescriptor
-		for i := 0; i < md.Oneofs().Len(); i++ {
-			if od := md.Oneofs().Get(i); !od.IsSynthetic() && od.Fields().Len() >= 2 {
-				ods = append(ods, od)
-			}
-		}
-		if len(ods) == 0 {
-			return
-		}
 		od := ods[g.n(0, len(ods)-1, "injoneof")]
 		var first protoreflect.FieldDescriptor
 		for i := 0; i < od.Fields().Len(); i++ {
